@@ -10,10 +10,23 @@ RESP_SETUP = ("symw 1",)
 
 
 def resp_part(v, thorough):
-    r = tlc("proto/Rep.tla", "Rep_mc.cfg", workers=12, timeout=2400)
+    # the respondent as it is: every zero-timeout send is refused (NbSendFails), modelled so that the rest of each
+    # behaviour stays comparable
+    r = tlc("proto/Rep.tla", "Resp_mc.cfg", workers=12, timeout=2400)
     tlc_require_ok(r, "Rep (respondent)")
-    v.add_tlc("proto/Rep.tla:mc", r)
-    replay_sim(v, "respondent", False, "proto/Rep.tla", "Rep_sim.cfg", 12000 if thorough else 2000, 35, auto=True, setup=RESP_SETUP)
+    v.add_tlc("proto/Rep.tla:Resp_mc", r)
+    replay_sim(v, "respondent", False, "proto/Rep.tla", "Resp_sim.cfg", 12000 if thorough else 2000, 35, auto=True, setup=RESP_SETUP)
+    if v.prop == "C15":
+        # C15 only: compare with the respondent that accepts a non-blocking send whenever it can send (known finding)
+        base = sig_proto("respondent")
+
+        def sig_nb(acts, idx, step, allowed):
+            a = acts[idx] if idx < len(acts) else {}
+            if (a.get("a") == "send" and a.get("mode") == "nb" and step and allowed and (step[1] or {}).get("rv") == "eagain"
+                    and allowed[0]["out"].get("rv") in ("ok", "estate")):
+                return "respondent.send.nb:eagain-when-can-send"
+            return base(acts, idx, step, allowed)
+        replay_sim(v, "respondent", False, "proto/Rep.tla", "Resp_nb.cfg", 300, 25, auto=True, setup=RESP_SETUP, sig_override=sig_nb)
 
 
 def surv_part(v, thorough):
